@@ -70,7 +70,9 @@ func c02Stores(maxLit int) [2][]lib.Pair {
 		if i%3 == 1 {
 			continue
 		}
-		v = append(v, lib.Pair{K: p.K, V: "y"})
+		// ... and its values are empty: a stored pair with an empty value is a
+		// pair like any other, a point read must not take it for a missing key
+		v = append(v, lib.Pair{K: p.K, V: ""})
 	}
 	return [2][]lib.Pair{u, v}
 }
@@ -174,7 +176,7 @@ func checkC02(c *c02Case) (msg string, nontrivial bool, labels []string) {
 	type hit struct{ k, v string }
 	var sat []hit
 	satKeyAny := map[string]bool{} // key satisfies P for some value
-	for _, val := range []string{"x", "y"} {
+	for _, val := range []string{"x", ""} {
 		for _, p := range c02Universe(c.MaxLit) {
 			ok, err := lib.EvalBool(c.Where, p.K, val, nil)
 			if err != nil {
@@ -330,7 +332,7 @@ func c02KeyAtoms(lits []string, full bool) []c02Atom {
 func c02OpaqueAtoms() []c02Atom {
 	return []c02Atom{
 		{N: lib.Bin("=", lib.Value(), lib.Str("x"))},
-		{N: lib.Bin("^=", lib.Value(), lib.Str("y"))},
+		{N: lib.Bin("!=", lib.Value(), lib.Str("x"))}, // true on the empty values of the second store
 		{N: lib.Bin("=", lib.Call("upper", lib.Key()), lib.Str("A")), MaxLit: 1},
 		{N: lib.Bin("~=", lib.Key(), lib.Str("a.")), MaxLit: 2},
 		{N: lib.Not(lib.Bin("=", lib.Key(), lib.Str("a"))), MaxLit: 1},
